@@ -1,6 +1,7 @@
 """S-HASH (engine level): pairs of evaluations with equal NodeHash must denote equal computations.
 The pairs come from a base graph and its single-step mutants, which share their function objects."""
-import copy, json, random
+import copy, json, os, random
+from . import paths
 from .codec import canon, val_to_json
 from .gen_vm import gen_graph, IDS
 from .real_vm import RealVM, json_to_py
@@ -326,3 +327,52 @@ def run_explicit_functions(seed, n):
         except Exception as e:
             problems.append({'desc': d, 'msg': 'explicit Function scenario raised ' + type(e).__name__ + ': ' + str(e)[:200]})
     return cases, problems
+
+
+def run_default_keywords(seed):
+    """one function with DEFAULT parameters bound through `Function(f, 'x', scale='k')` and `Function(f, 'x', shift='k')`: the same
+    inputs under different keyword names are different computations - different values, so different node hashes (C05), and a disk
+    cache shared by the two fields returns each its own value (C04)"""
+    import tempfile, shutil
+    paths.use_repo()
+    import connectome as c
+    from connectome.interface.edges import Function
+    from .sym import App
+    rng = random.Random(seed)
+    names = rng.sample(['scale', 'shift', 'bias', 'gain'], 3)
+
+    def affine(x, scale=1, shift=0, bias=0, gain=1):
+        return App('affine', (x, scale, shift, bias, gain), ())
+    fields = {f'by_{n}': Function(affine, 'x', **{n: 'k'}) for n in names}
+    src = c.Transform(x=lambda id: ('x', id), k=lambda id: ('k', id))
+    problems = []
+    root = tempfile.mkdtemp(prefix='cv-dkw-', dir=ensure_dir())
+    try:
+        plain = src >> c.Transform(__inherit__=True, **fields)
+        cached = plain >> c.CacheToDisk.simple(*fields, root=root)
+        seen = {}
+        for n in names:
+            f = plain._compile(f'by_{n}')
+            h = f.get_hash('a')[0]
+            v = repr(f('a'))
+            for m, (h2, v2) in seen.items():
+                if h == h2 and v != v2:
+                    problems.append({'kind': 'collision', 'msg': f'Function(affine, "x", {m}="k") and Function(affine, "x", {n}="k") (a function with default parameters) '
+                                                                 f'have the same node hash, their values differ: {v2[:80]} vs {v[:80]}'})
+            seen[n] = (h, v)
+        for n in names + names:
+            got = repr(getattr(cached, f'by_{n}')('a'))
+            if got != seen[n][1]:
+                problems.append({'kind': 'cache', 'msg': f'behind one CacheToDisk the field Function(affine, "x", {n}="k") returned {got[:80]}, '
+                                                         f'without caches it returns {seen[n][1][:80]}'})
+                break
+    except Exception as e:
+        problems.append({'kind': 'error', 'msg': 'default-keyword scenario raised ' + type(e).__name__ + ': ' + str(e)[:160]})
+    finally:
+        shutil.rmtree(root, ignore_errors=True)
+    return problems
+
+
+def ensure_dir():
+    os.makedirs(paths.SCRATCH, exist_ok=True)
+    return paths.SCRATCH
